@@ -4,8 +4,8 @@
 set -e
 name="$1"; shift
 cd /repo
-git apply --check "/verif/proposed_fixes/$name.diff"
-git apply "/verif/proposed_fixes/$name.diff"
+git apply --exclude="tests/*" --check "/verif/proposed_fixes/$name.diff"
+git apply --exclude="tests/*" "/verif/proposed_fixes/$name.diff"
 if [ $# -gt 0 ]; then
   if ! /venv/bin/python -m pytest -q -p no:cacheprovider -x "$@" 2>&1 | tail -3; then
     echo "TESTS FAILED - reverting"; git checkout -- . ; exit 1
